@@ -241,7 +241,10 @@ def t_trade_record(side):
         state = h.interp.instantiate(ct, [], {})
         q, p = h.real('q'), h.real('p', 0)
         h.assume(ops.lnot(ops.equal(q, 0)))
-        o = common.mk_order(h, side=side, type='LIMIT', qty=q, price=p, symbol='BTC-USDT', exchange='Sandbox', reduce_only=False,
+        # the order type is a finite enumeration: the row logged for the trade carries the order's own quantity and price for each
+        otype = 'LIMIT' if h.branch(h.bool('is_limit')) else ('STOP' if h.branch(h.bool('is_stop')) else 'MARKET')
+        ov['jesse.services.selectors.get_current_price'] = lambda i, a, k: h.real('some_other_current_price', 0)
+        o = common.mk_order(h, side=side, type=otype, qty=q, price=p, symbol='BTC-USDT', exchange='Sandbox', reduce_only=False,
                             status='EXECUTED')
         other = h.interp.call(h.interp.get_attr(state, '_get_current_trade'), ['Sandbox', 'ETH-USDT'])
         out = h.method_outcome(state, 'add_executed_order', o)
@@ -311,6 +314,35 @@ def t_trade_record_partial(side):
     return t
 
 
+def t_execute_after_partial(side):
+    """an order that was partially filled before (live-mode API) and is now executed completely, through the real Order.execute and
+    the real trade store: it ends EXECUTED and is listed in exactly one trade, once"""
+    def t(h):
+        trace = world(h)
+        ov = h.ctx.cfg.overrides
+        ov['jesse.helpers.generate_unique_id'] = lambda i, a, k: 'trade-id'
+        ct = h.repo.find(CT)
+        state = h.interp.instantiate(ct, [], {})
+        store = Obj(None, {'completed_trades': state}, name='store')
+        h.ctx.cfg.globals['jesse.store.store'] = lambda i: store
+        q = h.real('q')
+        h.assume(ops.compare('>', q, 0) if side == 'buy' else ops.compare('<', q, 0))
+        o = common.mk_order(h, side=side, type='LIMIT', qty=q, price=h.real('p', 0), symbol='BTC-USDT', exchange='Sandbox', reduce_only=False,
+                            status='PARTIALLY FILLED')
+        o.f['filled_qty'] = h.real('fq')
+        out = h.method_outcome(o, 'execute', silent=True)
+        h.prove(out.ok, 'execute-after-partial.no-exception', {'raised': out.exc})
+        if not out.ok:
+            return
+        h.prove(ops.equal(o.f['status'], 'EXECUTED') is True, 'execute-after-partial.becomes-executed')
+        n = 0
+        for tr in list(state.f['trades']) + list(state.f['tempt_trades'].values()):
+            if isinstance(tr, Obj):
+                n += sum(1 for x_ in tr.f.get('orders', []) if x_ is o)
+        h.prove(n == 1, 'execute-after-partial.listed-in-exactly-one-trade-once', {'listed': n})
+    return t
+
+
 def tasks(tier):
     x = dict(spec_mod=SPEC)
     ov = stubs.backtest_mode()
@@ -330,6 +362,13 @@ def tasks(tier):
     for side in ('buy', 'sell'):
         ts.append(Task(f'trade-record.{side}', t_trade_record(side), extra=x, overrides=dict(ov)))
         ts.append(Task(f'trade-record.partial.{side}', t_trade_record_partial(side), extra=x, overrides=dict(ov)))
+    for side in ('buy', 'sell'):
+        ts.append(Task(f'execute-after-partial.{side}', t_execute_after_partial(side), extra=x, overrides=dict(ov)))
     for status in ('ACTIVE', 'EXECUTED', 'CANCELED'):
         ts.append(Task(f'resubmit.{status}', t_resubmit(status), extra=x, overrides=dict(ov)))
+    # 'every executed order is recorded in exactly one trade': Order.execute records it once (execute.*, trade-record.*) and the
+    # position bookkeeping it triggers records nothing itself, whatever the fill does to the position (shared with C06)
+    import props.C06 as P6
+    for pt in ('long', 'short'):
+        ts.append(Task(f'dispatch.{pt}', P6.t_dispatch(pt, only_listing=True), extra=dict(spec_mod=P6.SPEC), overrides=dict(ov)))
     return ts
